@@ -61,6 +61,18 @@ Definition of_sum (r : jv + err0) : result :=
 
 Definition last_or (l : list jv) (d : jv) : jv := last l d.
 
+(* the $x parameters of a call are evaluated in order (ev: an argument on the input of the call, in the
+   environment of the call); k: the body in the completed environment *)
+Section BindPs.
+Variables (ev : query -> result) (k : venv -> result).
+Fixpoint bindps (ps : list param) (args : list query) (env : venv) {struct args} : result :=
+  match ps, args with
+  | PV x :: ps', a :: args' => bind (ev a) (fun w => bindps ps' args' ((x, BV w) :: env))
+  | PF _ :: ps', _ :: args' => bindps ps' args' env
+  | _, _ => k env
+  end.
+End BindPs.
+
 Section Den.
 Variable nt : natives.
 
@@ -167,12 +179,7 @@ Fixpoint den1 (call : query -> venv -> jv -> result) (q : query) (rho : venv) (v
       match lookup_f f (length args) rho with
       | Some (BF ps body, rho_d) =>
           (* the $x parameters are evaluated in order on the input of the call, in the environment of the call *)
-          (fix bindps (ps : list param) (args : list query) (env : venv) {struct args} : result :=
-             match ps, args with
-             | PV x :: ps', a :: args' => bind (go a rho v) (fun w => bindps ps' args' ((x, BV w) :: env))
-             | PF _ :: ps', _ :: args' => bindps ps' args' env
-             | _, _ => call body env v
-             end) ps args (pf_binds ps args rho ++ rho_d)
+          bindps (fun a => go a rho v) (fun env => call body env v) ps args (pf_binds ps args rho ++ rho_d)
       | Some (BP a rho_a, _) => call a rho_a v
       | _ => ([], None)
       end
